@@ -216,3 +216,10 @@ Print Assumptions C04_nest_survives_rejected_parent.
 Print Assumptions C04_nest_dropped_with_used_parent.
 Print Assumptions C04_sessionN_flat.
 Print Assumptions C04_nest_example.
+
+(* tests marked xfail are never rewritten: inline-snapshot decides "xfail" exactly as pytest does (Model/Xfail.v) *)
+From V Require Model.Xfail Proofs.XfailProofs.
+Theorem C04_is_xfail_agrees :
+  forall marks : list Xfail.mark, Xfail.is_xfail marks = Xfail.pytest_xfail marks.
+Proof. exact XfailProofs.is_xfail_agrees. Qed.
+Print Assumptions C04_is_xfail_agrees.
